@@ -373,6 +373,26 @@ func registeredByCaller(c *Ctx, caller *ssa.Function, v ssa.Value, table string,
 	if inserts(caller, v) {
 		return true
 	}
+	// handed by the caller to a helper that stores that very argument into the table
+	handed := false
+	ir.EachInstr(caller, func(_ *ssa.BasicBlock, _ int, in ssa.Instruction) {
+		call, ok := in.(*ssa.Call)
+		if !ok {
+			return
+		}
+		sc := ir.StaticCallee(call)
+		if sc == nil || !c.P.IsLib(sc) {
+			return
+		}
+		for i, a := range call.Call.Args {
+			if sameValue(ir.Unwrap(a), v) && i < len(sc.Params) && inserts(sc, sc.Params[i]) {
+				handed = true
+			}
+		}
+	})
+	if handed {
+		return true
+	}
 	var call *ssa.Call
 	switch x := v.(type) {
 	case *ssa.Call:
